@@ -14,7 +14,10 @@ CLAIMED = {
                   "pseudo-expansion on the ISA machine of Spec/Rv32.v: for mv, neg, not, seqz, snez, sltz, sgtz, li and nop the node the parser builds from the tokens has, on every machine state, "
                   "exactly the effect the assembly manual describes (Spec/PseudoSpec.v, written from the manual: e.g. seqz rd, rs writes 1 iff rs = 0 - an expansion to a SIGNED compare is refuted "
                   "by a computed example), and for beqz, bnez, bltz, bgez, bgtz, blez, bgt, ble, bgtu, bleu the built branch node's ISA condition (PcSpec.branch_holds) equals the manual's condition "
-                  "on the named operands (signed, resp. unsigned for bgtu/bleu), with the written label as target and no effect on the state. Besides, every mnemonic x operand form of the manual is parsed by code and model and its "
+                  "on the named operands (signed, resp. unsigned for bgtu/bleu), with the written label as target and no effect on the state. Props/C08sem2.v does the same for the BASE instructions, each stated once over the "
+                  "manual's tables: for every register-register and register-immediate mnemonic of AsmSpec.manual_arith the node built from `m rd, rs1, rs2|imm` writes FoldSpec.eval of the manual's operation on the named "
+                  "operands into rd; for every load/store mnemonic in the off(rs1) form the effect is the Rv32 load/store with the MANUAL's width and signedness at rs1+off; `la` writes the label's address; `j/b` are jumps "
+                  "with link register x0, `jal l`/`call l` calls with link register ra, `jr rs`/`ret` register jumps of which exactly those through ra are returns. Besides, every mnemonic x operand form of the manual is parsed by code and model and its "
                   "architectural effect judged, the registers each line READS are observed through liveness and judged against the manual (every register whose value changes the line's effect; exactly rs1 for CSR forms), and "
                   "the control transfer of every jump and branch form (any link register) is read off the graph's successor edges.",
              design="8/C08", note=NOTE + "Modelled: Rust i32/i64/u64 arithmetic as Z with explicit wrap.",
